@@ -28,20 +28,37 @@ NL == {LF, CR}
 Slice(s, a, b) == SubSeq(s, a, b - 1)
 From(s, a) == SubSeq(s, a, Len(s))
 
+\* Scans proceed in windows of W positions: a set comprehension inside the window, recursion from
+\* window to window.  (TLC's cost of a recursive operator grows faster than linearly with the
+\* recursion depth -- a byte-by-byte recursion over a 16 KB line takes half a minute -- while windows
+\* keep the work proportional to the distance scanned, unlike one comprehension over the whole rest.)
+W == 64
+MinOf(S) == CHOOSE x \in S : \A y \in S : x <= y
+MaxOf(S) == CHOOSE x \in S : \A y \in S : x >= y
+
 \* first position >= i holding a byte of S, Len(s)+1 if there is none
 RECURSIVE ScanTo(_, _, _)
 ScanTo(s, i, S) ==
-  IF i > Len(s) THEN i ELSE IF s[i] \in S THEN i ELSE ScanTo(s, i + 1, S)
+  IF i > Len(s) THEN Len(s) + 1
+  ELSE LET hi == IF i + W - 1 < Len(s) THEN i + W - 1 ELSE Len(s)
+           hit == {k \in i..hi : s[k] \in S}
+       IN  IF hit # {} THEN MinOf(hit) ELSE ScanTo(s, hi + 1, S)
 
 \* first position >= i holding a byte outside S
 RECURSIVE ScanWhile(_, _, _)
 ScanWhile(s, i, S) ==
-  IF i > Len(s) THEN i ELSE IF s[i] \notin S THEN i ELSE ScanWhile(s, i + 1, S)
+  IF i > Len(s) THEN Len(s) + 1
+  ELSE LET hi == IF i + W - 1 < Len(s) THEN i + W - 1 ELSE Len(s)
+           hit == {k \in i..hi : s[k] \notin S}
+       IN  IF hit # {} THEN MinOf(hit) ELSE ScanWhile(s, hi + 1, S)
 
 \* last position < j (and >= i) holding a byte of S, 0 if none
 RECURSIVE RScanTo(_, _, _, _)
 RScanTo(s, i, j, S) ==
-  IF j <= i THEN 0 ELSE IF s[j - 1] \in S THEN j - 1 ELSE RScanTo(s, i, j - 1, S)
+  IF j <= i THEN 0
+  ELSE LET lo == IF j - W > i THEN j - W ELSE i
+           hit == {k \in lo..(j - 1) : s[k] \in S}
+       IN  IF hit # {} THEN MaxOf(hit) ELSE RScanTo(s, i, lo, S)
 
 HasPrefixAt(s, i, p) ==
   /\ i + Len(p) - 1 <= Len(s)
@@ -50,24 +67,23 @@ HasPrefixAt(s, i, p) ==
 StartsWith(s, p) == HasPrefixAt(s, 1, p)
 EndsWith(s, p) == Len(p) <= Len(s) /\ HasPrefixAt(s, Len(s) - Len(p) + 1, p)
 
-\* first position >= i at which p occurs, 0 if none
+\* first position >= i at which p occurs, 0 if none (window by window)
 RECURSIVE FindSub(_, _, _)
 FindSub(s, i, p) ==
   IF i + Len(p) - 1 > Len(s) THEN 0
-  ELSE IF HasPrefixAt(s, i, p) THEN i ELSE FindSub(s, i + 1, p)
+  ELSE LET last == Len(s) - Len(p) + 1
+           hi == IF i + W - 1 < last THEN i + W - 1 ELSE last
+           hit == {k \in i..hi : HasPrefixAt(s, k, p)}
+       IN  IF hit # {} THEN MinOf(hit) ELSE FindSub(s, hi + 1, p)
 
 HasByte(s, b) == \E k \in 1..Len(s) : s[k] = b
 
-\* byte-wise lexicographic order (what Rust's str::cmp is)
-RECURSIVE LexCmpFrom(_, _, _)
-LexCmpFrom(a, b, i) ==
-  IF i > Len(a) /\ i > Len(b) THEN 0
-  ELSE IF i > Len(a) THEN -1
-  ELSE IF i > Len(b) THEN 1
-  ELSE IF a[i] < b[i] THEN -1
-  ELSE IF a[i] > b[i] THEN 1
-  ELSE LexCmpFrom(a, b, i + 1)
-LexCmp(a, b) == LexCmpFrom(a, b, 1)
+\* byte-wise lexicographic order (what Rust's str::cmp is): decided at the first differing position
+LexCmp(a, b) ==
+  LET n == IF Len(a) < Len(b) THEN Len(a) ELSE Len(b)
+      diff == {k \in 1..n : a[k] # b[k]}
+  IN  IF diff = {} THEN (IF Len(a) < Len(b) THEN -1 ELSE IF Len(a) > Len(b) THEN 1 ELSE 0)
+      ELSE LET d == MinOf(diff) IN IF a[d] < b[d] THEN -1 ELSE 1
 LexLess(a, b) == LexCmp(a, b) = -1
 LexLeq(a, b) == LexCmp(a, b) <= 0
 
